@@ -256,6 +256,17 @@ pub fn fill_members(rng: &mut Rng, cfg: &GenCfg, n: usize, scale: usize, mapped:
         for k in 1..n { names.push(if absent(rng, cfg) { None } else { let same = rng.chance(1, 8); Some(uq.take(k, &desc, || if same { src.clone() } else { field_name(rng, cfg) }, true)) }); }
         c.fields.insert((src, desc), Field { names, comment: maybe_comment(rng, cfg) });
     }
+    // overload twins: the same name row under a different descriptor (only the descriptor tells them apart)
+    if !c.fields.is_empty() && rng.chance(1, 5) {
+        let ((_, _), f) = c.fields.iter().nth(rng.below(c.fields.len())).map(|(k, v)| (k.clone(), v.clone())).unwrap();
+        let desc = field_desc(rng, cfg, mapped);
+        let fresh = (0..n).all(|k| f.names[k].as_ref().map_or(true, |nm| !uq.used[k].contains(&(nm.clone(), desc.clone()))));
+        let key = (f.names[0].clone().unwrap(), desc.clone());
+        if fresh && !c.fields.contains_key(&key) {
+            for k in 0..n { if let Some(nm) = &f.names[k] { uq.used[k].insert((nm.clone(), desc.clone())); } }
+            c.fields.insert(key, Field { names: f.names, comment: maybe_comment(rng, cfg) });
+        }
+    }
     let mut uq = Uniq::new(cfg.unique_per_namespace, n);
     for _ in 0..rng.usize_in(0, cfg.max_methods * scale) {
         let desc = method_desc(rng, cfg, mapped);
@@ -274,6 +285,16 @@ pub fn fill_members(rng: &mut Rng, cfg: &GenCfg, n: usize, scale: usize, mapped:
             m.params.insert(idx, Param { names, comment: maybe_comment(rng, cfg) });
         }
         c.methods.insert((src, desc), m);
+    }
+    if !c.methods.is_empty() && rng.chance(1, 5) {
+        let m0 = c.methods.values().nth(rng.below(c.methods.len())).cloned().unwrap();
+        let desc = method_desc(rng, cfg, mapped);
+        let fresh = (0..n).all(|k| m0.names[k].as_ref().map_or(true, |nm| !uq.used[k].contains(&(nm.clone(), desc.clone()))));
+        let key = (m0.names[0].clone().unwrap(), desc.clone());
+        if fresh && !c.methods.contains_key(&key) {
+            for k in 0..n { if let Some(nm) = &m0.names[k] { uq.used[k].insert((nm.clone(), desc.clone())); } }
+            c.methods.insert(key, Method { names: m0.names, comment: maybe_comment(rng, cfg), params: if rng.bool() { m0.params } else { BTreeMap::new() } });
+        }
     }
 }
 
